@@ -113,4 +113,4 @@ var arbitrary = ev.NewCheck("C14", "option-sets-arbitrary-streams",
 		return c
 	}, runRaw)
 
-func TestPropArbitraryStreams(t *testing.T) { arbitrary.Rapid(t, 500, 20000) }
+func TestPropArbitraryStreams(t *testing.T) { arbitrary.Rapid(t, 1500, 20000) }
